@@ -1,6 +1,7 @@
 package regular
 
 //vsym:pkg github.com/theparanoids/ysshra/gensign/regular
+//vsym:include regular/ctor.go || regular/ctor_bb.go
 //vsym:entry H01_run
 //vsym:model os.Stat m01Stat
 //vsym:model os.ReadFile m01ReadFile
@@ -441,7 +442,7 @@ func H01_run() {
 		w01Dir = n01Setup()
 		defer os.RemoveAll(w01Dir)
 	}
-	real := h01Real{&Handler{agent: m01Agent{}, conf: &conf{PubKeyDir: w01Dir}}}
+	real := h01Real{rgNewHandler(0, m01Agent{}, nil, w01Dir)}
 	maxH := 2
 	if vThorough() {
 		maxH = 3
